@@ -75,6 +75,7 @@ func (x *Exec) callFunc(fr *Frame, st *State, fn *ssa.Function, args []Value, nb
 	k = func(st2 *State, res Value) {
 		// remember the result of this call (callres() in contract expressions)
 		st2.calls = &callEntry{frame: fr.id, key: key, res: res, parent: st2.calls}
+		x.afterCall(fr, st2, key, fn, args[nbind:], res)
 		k0(st2, res)
 	}
 	if sp := x.special(fr, st, fn, key, args, pos, k); sp {
@@ -107,6 +108,59 @@ func (x *Exec) callFunc(fr *Frame, st *State, fn *ssa.Function, args []Value, nb
 		return
 	}
 	x.unknownCall(fr, st, key, fn.Signature, args[nbind:], pos, k)
+}
+
+// afterCall executes the `after <callee> set g = expr` ghost assignments of the function under
+// verification once a call of callee has returned.
+func (x *Exec) afterCall(fr *Frame, st *State, key string, fn *ssa.Function, args []Value, res Value) {
+	if fr.ctx == nil || fr != fr.ctx.top || fr.ctx.contract == nil {
+		return
+	}
+	for _, cl := range fr.ctx.contract.Sets {
+		if cl.At != key {
+			continue
+		}
+		ev := x.newEval(fr, st, nil)
+		ict := x.prog.cs.Funcs[key]
+		if fn != nil && len(fn.Params) > 0 {
+			for i, p := range fn.Params {
+				if i < len(args) {
+					ev.bind["ARG_"+p.Name()] = args[i]
+				}
+			}
+		} else if ict != nil {
+			off := len(ict.Params) - len(args)
+			for i, a := range args {
+				if off >= 0 && off+i < len(ict.Params) {
+					ev.bind["ARG_"+ict.Params[off+i]] = a
+				}
+			}
+		}
+		var results []Value
+		switch r := res.(type) {
+		case nil:
+		case *TupleV:
+			results = r.E
+		default:
+			results = []Value{r}
+		}
+		for i, r := range results {
+			ev.bind[fmt.Sprintf("ARG_result%d", i)] = r
+			if ict != nil && i < len(ict.Results) {
+				ev.bind["ARG_"+ict.Results[i]] = r
+			}
+		}
+		st.quiet++
+		v := ev.eval(cl.Expr)
+		st.quiet--
+		// the target is a ghost cell of the top frame
+		if id, ok := fr.ctx.ghost[cl.Label]; ok {
+			c := st.cells[id]
+			x.store(st, &Loc{Kind: LCell, CellID: id, Root: c.Typ, Typ: c.Typ}, v)
+		} else {
+			x.abort("after %s set %s: unknown ghost variable", key, cl.Label)
+		}
+	}
 }
 
 // callAsserts checks `at <callee> assert` clauses of the function under verification.
@@ -225,6 +279,7 @@ func (x *Exec) invoke(fr *Frame, st *State, c *ssa.CallCommon, recv Value, args 
 		k0 := k
 		k = func(st2 *State, res Value) {
 			st2.calls = &callEntry{frame: fr.id, key: key, res: res, parent: st2.calls}
+			x.afterCall(fr, st2, key, nil, args, res)
 			k0(st2, res)
 		}
 	}
@@ -302,6 +357,16 @@ func (x *Exec) applyContract(fr *Frame, st *State, ct *Contract, key string, sig
 		t := ev.boolExpr(cl.Expr)
 		x.oblige(st, "call-pre", fmt.Sprintf("%s:%s", shortKey(key), cl.Label), t, cl.Tags, pos)
 	}
+	wasPanicking := st.panicking
+	ev.bind["PANICKING"] = &Prim{T: BoolLit(wasPanicking)}
+	if ct.Panics == "may" && !st.panicking && x.panicPaths {
+		// the callee may panic instead of returning: a second path unwinds from here
+		ps := st.clone()
+		x.branch(func() {
+			x.havocAssigns(fr, ps, ct, ev, key)
+			x.doPanic(fr, ps, pos, false)
+		})
+	}
 	pre := st.clone()
 	// havoc the callee's frame
 	x.havocAssigns(fr, st, ct, ev, key)
@@ -334,6 +399,10 @@ func (x *Exec) applyContract(fr *Frame, st *State, ct *Contract, key string, sig
 	for n, v := range ev.bind {
 		post.bind[n] = v
 		post.bindT[n] = ev.bindT[n]
+	}
+	if ct.Recovers && wasPanicking {
+		st.panicking = false
+		st.recovered = true
 	}
 	rnames := ct.Results
 	if len(rnames) == 0 && fn != nil {
@@ -462,6 +531,14 @@ func (x *Exec) havocAssigns(fr *Frame, st *State, ct *Contract, ev *Eval, key st
 		}
 		var keys []string
 		switch {
+		case strings.HasPrefix(a, "*"):
+			// the location a pointer parameter points to
+			pv, ok := ev.bind[a[1:]].(*PtrV)
+			if !ok || pv.Loc == nil {
+				x.abort("assigns %s: not a pointer parameter", a)
+			}
+			x.store(st, pv.Loc, x.symbolic(st, pv.Loc.Typ, "deref_"+a[1:], true))
+			continue
 		case strings.HasPrefix(a, "ghost "):
 			g := strings.TrimPrefix(a, "ghost ")
 			gf := x.prog.cs.Ghosts[g]
@@ -571,12 +648,20 @@ func (x *Exec) builtin(fr *Frame, st *State, b *ssa.Builtin, c *ssa.CallCommon, 
 		x.mapDelete(st, m, args[1])
 		return nil
 	case "recover":
+		var res Value
 		if st.panicking {
 			st.panicking = false
 			st.recovered = true
-			return st.panicVal
+			res = st.panicVal
+		} else if fr.ctx != nil && fr == fr.ctx.top {
+			// the function under verification may be running as a deferred call of a panicking
+			// caller: recover() yields an arbitrary value
+			res = x.symbolic(st, types.NewInterfaceType(nil, nil), "recovered", false)
+		} else {
+			res = &IfaceV{Tag: TZero, Data: TZero}
 		}
-		return &IfaceV{Tag: TZero, Data: TZero}
+		st.calls = &callEntry{frame: fr.id, key: "builtin.recover", res: res, parent: st.calls}
+		return res
 	case "print", "println":
 		return nil
 	case "min", "max":
@@ -643,13 +728,16 @@ func (x *Exec) appendCPS(fr *Frame, st *State, args []Value, c *ssa.CallCommon, 
 			if tconst && tlen <= 4 {
 				inrow = srow
 				for j := int64(0); j < tlen; j++ {
-					inrow = Store(inrow, Add(Add(s.Off, s.Len), IntLit(j)), Select(trow, Add(t.Off, IntLit(j))))
+					inrow = Store(inrow, Sidx(s.Off, Add(s.Len, IntLit(j))), Select(trow, Sidx(t.Off, IntLit(j))))
 				}
 			} else {
 				inrow = x.freshConst(st, "inrow", ArrSort(l.Sort))
 				j := "j!q"
-				st.assume(Term{fmt.Sprintf("(forall ((%s Int)) (= (select %s %s) (ite (and (>= %s %s) (< %s %s)) (select %s (+ %s (- %s %s))) (select %s %s))))",
-					j, inrow.S, j, j, Add(s.Off, s.Len).S, j, Add(s.Off, n).S, trow.S, t.Off.S, j, Add(s.Off, s.Len).S, srow.S, j), SBool})
+				// element j of t lands at absolute index sidx(s.Off, s.Len+j)
+				st.assume(Term{fmt.Sprintf("(forall ((%s Int)) (=> (and (>= %s 0) (< %s %s)) (= (select %s %s) (select %s %s))))",
+					j, j, j, t.Len.S, inrow.S, Sidx(s.Off, Add(s.Len, Term{j, SInt})).S, trow.S, Sidx(t.Off, Term{j, SInt}).S), SBool})
+				st.assume(Term{fmt.Sprintf("(forall ((%s Int)) (=> (or (< %s %s) (>= %s %s)) (= (select %s %s) (select %s %s))))",
+					j, j, Sidx(s.Off, s.Len).S, j, Sidx(s.Off, n).S, inrow.S, j, srow.S, j), SBool})
 			}
 			x.checkFrame(st, key, s.Ptr)
 			x.recordWrite(st, key)
@@ -669,17 +757,19 @@ func (x *Exec) appendCPS(fr *Frame, st *State, args []Value, c *ssa.CallCommon, 
 			trow := Select(arr, t.Ptr)
 			base := x.freshConst(st, "newrow", ArrSort(l.Sort))
 			j := "j!q"
-			st.assume(Term{fmt.Sprintf("(forall ((%s Int)) (=> (and (>= %s 0) (< %s %s)) (= (select %s %s) (select %s (+ %s %s)))))",
-				j, j, j, s.Len.S, base.S, j, srow.S, s.Off.S, j), SBool})
+			st.assume(Term{fmt.Sprintf("(forall ((%s Int)) (=> (and (>= %s 0) (< %s %s)) (= (select %s %s) (select %s %s))))",
+				j, j, j, s.Len.S, base.S, j, srow.S, Sidx(s.Off, Term{j, SInt}).S), SBool})
 			newrow := base
 			if tconst && tlen <= 4 {
 				for jj := int64(0); jj < tlen; jj++ {
-					newrow = Store(newrow, Add(s.Len, IntLit(jj)), Select(trow, Add(t.Off, IntLit(jj))))
+					newrow = Store(newrow, Add(s.Len, IntLit(jj)), Select(trow, Sidx(t.Off, IntLit(jj))))
 				}
 			} else {
 				newrow = x.freshConst(st, "newrow2", ArrSort(l.Sort))
-				st.assume(Term{fmt.Sprintf("(forall ((%s Int)) (= (select %s %s) (ite (and (>= %s %s) (< %s %s)) (select %s (+ %s (- %s %s))) (select %s %s))))",
-					j, newrow.S, j, j, s.Len.S, j, n.S, trow.S, t.Off.S, j, s.Len.S, base.S, j), SBool})
+				st.assume(Term{fmt.Sprintf("(forall ((%s Int)) (=> (and (>= %s 0) (< %s %s)) (= (select %s (+ %s %s)) (select %s %s))))",
+					j, j, j, t.Len.S, newrow.S, s.Len.S, j, trow.S, Sidx(t.Off, Term{j, SInt}).S), SBool})
+				st.assume(Term{fmt.Sprintf("(forall ((%s Int)) (=> (and (>= %s 0) (< %s %s)) (= (select %s %s) (select %s %s))))",
+					j, j, j, s.Len.S, newrow.S, j, base.S, j), SBool})
 			}
 			x.recordWrite(st, key)
 			x.setHeap(st, key, Store(arr, nr, newrow))
@@ -701,8 +791,10 @@ func (x *Exec) copyOp(st *State, args []Value, pos token.Pos) Value {
 		srow := Select(arr, s.Ptr)
 		nrow := x.freshConst(st, "copyrow", ArrSort(l.Sort))
 		j := "j!q"
-		st.assume(Term{fmt.Sprintf("(forall ((%s Int)) (= (select %s %s) (ite (and (>= %s %s) (< %s %s)) (select %s (+ %s (- %s %s))) (select %s %s))))",
-			j, nrow.S, j, j, d.Off.S, j, Add(d.Off, n).S, srow.S, s.Off.S, j, d.Off.S, drow.S, j), SBool})
+		st.assume(Term{fmt.Sprintf("(forall ((%s Int)) (=> (and (>= %s 0) (< %s %s)) (= (select %s %s) (select %s %s))))",
+			j, j, j, n.S, nrow.S, Sidx(d.Off, Term{j, SInt}).S, srow.S, Sidx(s.Off, Term{j, SInt}).S), SBool})
+		st.assume(Term{fmt.Sprintf("(forall ((%s Int)) (=> (or (< %s %s) (>= %s %s)) (= (select %s %s) (select %s %s))))",
+			j, j, d.Off.S, j, Sidx(d.Off, n).S, nrow.S, j, drow.S, j), SBool})
 		x.checkFrame(st, key, d.Ptr)
 		x.recordWrite(st, key)
 		x.setHeap(st, key, Store(arr, d.Ptr, nrow))
